@@ -115,7 +115,7 @@ theorem interpDT_unitVariant_nonunion (ext : Ext) {dt : DataType} (n : Bool) (md
 theorem interpScalar_known {ext : Ext} {dt : DataType} {x : SVal} {lv : LVal} (md : Metadata)
     (h : interpScalar ext dt x = .ok lv) (hx : ∀ nm, x ≠ .unitStruct nm) : isUnknownVariant dt md = false := by
   cases dt <;> simp only [isUnknownVariant]
-  cases x <;> simp [interpScalar, fail] at h
+  cases x <;> simp [interpScalar_eq_old, normErr_ok_iff, interpScalarOld, fail] at h
   exact absurd rfl (hx _)
 
 theorem scalarValue_complete {ext : Ext} {x : SVal} {b : B} {dt : DataType} {n : Bool} {md : Metadata} {lv : LVal}
